@@ -8,4 +8,5 @@ import (
 	_ "verifmc/checks/c05"
 	_ "verifmc/checks/c06"
 	_ "verifmc/checks/c15"
+	_ "verifmc/checks/c18"
 )
